@@ -26,6 +26,24 @@ def gen_cases(seed, tier, n):
         c = tracegen.gen_case(seed, i, tracegen.PROFILES["kseq"])
         rng = random.Random(seed * 7919 + i)
         c["params"] = {"pseed": rng.randint(0, 10 ** 9)}
+        if i % 3 == 0:
+            # twin kernels: the same kernel name with the same start and duration on another stream, launched by a call
+            # whose span is identical to the original launch call's (identical spans nest in file order)
+            import copy as _copy
+            for rk in c["ranks"].values():
+                evs = rk["events"]
+                launches = [e for e in evs if isinstance(e.get("args"), dict) and "correlation" in e["args"] and e.get("cat") in ("cuda_runtime", "cuda_driver")
+                            and any(isinstance(k.get("args"), dict) and k["args"].get("correlation") == e["args"]["correlation"] and "stream" in k["args"] and k is not e
+                                    for k in evs)]
+                for l in rng.sample(launches, min(2, len(launches))):
+                    k = next(k for k in evs if k is not l and isinstance(k.get("args"), dict) and k["args"].get("correlation") == l["args"]["correlation"] and "stream" in k["args"])
+                    l2, k2 = _copy.deepcopy(l), _copy.deepcopy(k)
+                    nc = l["args"]["correlation"] + 500000
+                    l2["args"]["correlation"] = nc
+                    k2["args"]["correlation"] = nc
+                    k2["args"]["stream"] = k["args"]["stream"] + 100
+                    k2["tid"] = k2["args"]["stream"]
+                    evs += [l2, k2]
         if i % 2 == 0:
             # repeat the whole rank once or twice later in time (fresh correlation ids): patterns then occur several times
             import copy
